@@ -31,6 +31,8 @@ class Profile:
         self.fill_text_mix = True
         self.elems = ()  # element tags (C14)
         self.provide_keys = ()  # C05
+        self.fixed_comps = ()  # components with a fixed template (not generated, cost 0)
+        self.empty_provide = False
         self.__dict__.update(kw)
 
 
@@ -80,12 +82,13 @@ class Gen:
         for c in allowed:
             if n == 1:
                 out.append(("Comp", c, (), False, None))
-            else:
+            elif c not in pf.fixed_comps:
                 for body in self._bodies(n - 1, ctx):
                     out.append(("Comp", c, (), False, body))
-        for key in pf.provide_keys:
-            for body in self._content(n - 1, ctx):
-                out.append(("Prov", key, (("v", "'%s%s'" % (key.upper(), "")),), body))
+        if n >= 2 or pf.empty_provide:
+            for key in pf.provide_keys:
+                for body in self._content(n - 1, ctx):
+                    out.append(("Prov", key, None, body))
         return tuple(out)
 
     def _bodies(self, m, ctx):
@@ -136,15 +139,21 @@ class Gen:
         """Yields Program objects with total size <= N (deterministic order, smallest page first)."""
         pf = self.pf
         for p in range(1, N + 1):
-            for page in self._content(p, (False, False, pf.comps)):
+            for page in self._content(p, (False, False, pf.comps + pf.fixed_comps)):
                 used = comps_used(page)
                 if not used:
                     continue
-                if used[0] != "a":
+                gen_used = [c for c in used if c not in pf.fixed_comps]
+                if not gen_used:
+                    prog = self._mk(page, {}, make_spec, page_ctx)
+                    if prog is not None:
+                        yield prog
+                    continue
+                if gen_used[0] != "a":
                     continue
                 rem = N - p
                 for sa in range(0, rem + 1):
-                    a_allowed = tuple(c for c in pf.comps if c != "a")
+                    a_allowed = tuple(c for c in pf.comps if c != "a") + pf.fixed_comps
                     for ta in self._content(sa, (True, False, a_allowed)):
                         a_uses_b = "b" in comps_used(ta)
                         need_b = ("b" in used) or a_uses_b
@@ -153,7 +162,7 @@ class Gen:
                             if prog is not None:
                                 yield prog
                             continue
-                        b_allowed = () if a_uses_b else ("a",)
+                        b_allowed = (() if a_uses_b else ("a",)) + pf.fixed_comps
                         for sb in range(0, rem - sa + 1):
                             for tb in self._content(sb, (True, False, b_allowed)):
                                 prog = self._mk(page, {"a": ta, "b": tb}, make_spec, page_ctx)
@@ -166,6 +175,8 @@ class Gen:
         comps = {}
         for name, t in templates.items():
             comps[name] = make_spec(name, label(t, name.upper()))
+        for name in self.pf.fixed_comps:
+            comps[name] = make_spec(name, None)
         return Program(label(page, "P"), comps, dict(page_ctx))
 
 
